@@ -504,6 +504,8 @@ def run(ctx, tier):
     results += error_atomic(ctx)
     import c02
     results += c02.alternate_rule(ctx, rule='C06.alternate')
+    import c16
+    results += ob['O6'] + c16.strict_guard(ctx, rule='C06.strict-before-header')
     return dict(
         results=results, stats=dict(ctx.stats),
         explanation=(
